@@ -451,6 +451,8 @@ def check(run):
                 'rbql-js query_csv (stream, bulk) and node cli_rbql.js over the C13 cases; user init code (defining a function used in SELECT / WHERE / ORDER BY / UPDATE, or raising) over small tables')
     run.assumptions = ['not a listed property: mismatches are reported as EXTENSION-MISMATCH']
     table_lookup(run)
+    from . import readerapi
+    readerapi.check(run, run.tier == 'quick')
     repo_scenarios(run)
     from_tables(run)
     ec.run_family(run, 'EXT-user-init-code', 'Q_EXTinit', 'R_2x2', maxA=2, hdrmodes=(False, True))
@@ -462,5 +464,10 @@ def check(run):
 
 
 def replay(path):
+    import json
+    rep = json.load(open(path))
+    if rep.get('case', {}).get('kind') == 'reader_api':
+        from . import readerapi
+        return readerapi.replay_case(rep['case'])
     print(open(path).read()[:3000])
     return 1
